@@ -38,3 +38,46 @@ def honest_guard(run, name, rowsem, layout, timeout=None):
             q.add(f"(= {nm} {v})")
     return run.obligation(name, q.lines(), q.asserts, expect="sat", kind="vacuity/honest-witness",
                           timeout=timeout, get_model=False)
+
+
+def range_patterns(run):
+    pb = fw.run_driver(fw.REAL_BIN, ["extract_batch", "range_bits", "0", "256"], run.seed)
+    return xe.RangePatterns(pb["outputs"]["layouts"])
+
+
+def summary_lemmas(run, rowsem, patterns, widths, prefix="lemma/range"):
+    """every range summary `value < 2^k` used by a query is re-proven in this
+    run: rows(range_check(k)) and value >= 2^k is unsat (the C09 obligation)"""
+    for k in sorted(set(widths)):
+        L = patterns.pat[k][2]
+        bounds, lem = xe.propagate_bounds(rowsem, L)
+        run.bound_lemmas(f"{prefix}/w{k}", lem)
+        q = xe.Query()
+        xe.apply_bounds(q, bounds)
+        xe.encode_layout(q, rowsem, L)
+        x = q.var(xe.wname(L.inputs["x"]))
+        q.add(f"(>= {x} {1 << k})")
+        run.query(f"{prefix}/w{k}", q, "unsat", "lemma/range-summary", get_model=False)
+
+
+def gadget_replay(run, gadget_args, layout, violated):
+    """Replay of a gadget-soundness model through the real compiler, prover and
+    verifier: reproduced iff the proof of the forged assignment verifies and
+    `violated(model)` confirms the documented result is violated."""
+    def rp(model):
+        from checks.common import real_at
+        env = {}
+        for i in range(len(layout.witnesses)):
+            v = model.get(smt.vname(xe.wname(i)))
+            if v is not None:
+                env[f"w{i}"] = "%064x" % (v % smt.R)
+        rb = real_at(["prove_gadget"] + [str(a) for a in gadget_args], env, run.seed)
+        o = rb["outputs"]
+        bad, info = violated(model)
+        return bool(o.get("verified")) and bad, {"gadget": gadget_args, "prover": o, "violated": info,
+                                                 "env": env}
+    return rp
+
+
+def mval(model, i):
+    return model.get(smt.vname(xe.wname(i)), 0) % smt.R
